@@ -549,12 +549,15 @@ def run_case(case):
     entry, rep = case["entry"], case["rep"]
 
     def bad(code, what, **extra):
-        key = {"fam": fam, "code": code, "entry": entry}
-        if fam == "I":
+        key = {"fam": fam, "code": code}
+        if code in ("invalid-accepted", "invalid-late-error"):
+            key["entry"] = entry
             key["why"] = case["why"]          # the class of invalidity; the representation is in the text
-        else:
+        elif code == "valid-rejected":
+            key["entry"] = entry
             key["rep"] = rep
-        if fam in ("L", "D", "A"):
+        else:                                 # clock / lifecycle codes: mode, history and detector kind matter
+            key["nd"] = bool(case["nd"])
             key["history"] = case["history"]
             key["det"] = case["det"]
         key.update(extra)
